@@ -40,6 +40,23 @@ type RegNested struct {
 	Tags []string
 }
 
+// a registered named pointer type, and a registered type bridged through Binary marshalling
+type RegPtr *int32
+
+type Stamp struct{ N int64 }
+
+func (s Stamp) MarshalBinary() ([]byte, error) { return []byte(fmt.Sprintf("stamp:%d", s.N)), nil }
+func (s *Stamp) UnmarshalBinary(bs []byte) error {
+	_, err := fmt.Sscanf(string(bs), "stamp:%d", &s.N)
+	return err
+}
+
+type WithRegPtr struct {
+	A RegPtr
+	B RegPtr
+	N int
+}
+
 type WithUnexported struct {
 	A      int
 	hidden string
@@ -110,6 +127,7 @@ type WithFunc struct {
 
 var registeredTypes = []reflect.Type{
 	reflect.TypeOf(RegInt(0)), reflect.TypeOf(RegStr("")), reflect.TypeOf(RegPoint{}), reflect.TypeOf(RegNested{}),
+	reflect.TypeOf(RegPtr(nil)),
 }
 
 var catalogueTypes = []reflect.Type{
@@ -119,7 +137,7 @@ var catalogueTypes = []reflect.Type{
 	reflect.TypeOf(RegInt(0)), reflect.TypeOf(RegStr("")), reflect.TypeOf(RegPoint{}), reflect.TypeOf(RegNested{}),
 	reflect.TypeOf(WithUnexported{}), reflect.TypeOf(WithDeprecated{}), reflect.TypeOf(Wide{}),
 	reflect.TypeOf(WithAny{}), reflect.TypeOf(WithTime{}), reflect.TypeOf(WithPtrs{}), reflect.TypeOf(WithFunc{}),
-	reflect.TypeOf(time.Time{}), reflect.TypeOf(WithEmbedded{}),
+	reflect.TypeOf(time.Time{}), reflect.TypeOf(WithEmbedded{}), reflect.TypeOf(RegPtr(nil)), reflect.TypeOf(WithRegPtr{}),
 }
 
 var isRegistered = map[reflect.Type]bool{}
@@ -129,6 +147,7 @@ func init() {
 		sb.Register(t)
 		isRegistered[t] = true
 	}
+	sb.Register(reflect.TypeOf(Stamp{})) // not in the model's universe: exercised by a Go oracle only
 }
 
 var timeType = reflect.TypeOf(time.Time{})
